@@ -23,3 +23,8 @@ check("C17",
  "Decides structural clauses: (VALIDATE-FIRST) no encoder argument / unvalidated EncodeParams field is consumed by arithmetic, an allocation, an index or a narrowing conversion while still exactly as it arrived; (BUFFER-CHECK) every []byte pixel argument of an encoding entry point is length-tested with an error exit before it is indexed or handed on; (NARROW) every conversion to an 8/16-bit header field in a header writer is value-preserving under the ranges validation establishes; plus the IDX/DIV/MAKE/SHIFT/ASSERT/PANIC classes of C08 over encode-reachable code with the arguments as adversarial sources. That a returned stream decodes to the requested geometry is decided only through NARROW.",
  "trusted: as C08; validator postconditions assume the validator's error is propagated (checked: the validator call dominates every other call of the entry point and its result is nil-tested)",
  "DESIGN.md §4 C17")
+check("C16",
+ "CFG dominance rules for framing + who-may-write (ownership) rule for entropy-coder sinks + symbolic byte counting of marker segments",
+ "Decides structural clauses of well-formedness: (ORDER-FRAMING) in every function that starts a codestream the start-marker write dominates all other writes to the output, the end-marker write dominates every nil-error return and nothing follows it; (BYTES) for every hand-written JPEG 2000 marker segment, SOT/Psot and TLM the bytes written are counted as a linear expression over len() terms (range loops multiplied by their trip count) and must equal the expression stored in the length field; JPEG length-bearing markers go through Writer.WriteSegment (OWNER-LENGTH); (OWNER-SINK) the byte sinks of the Huffman, Golomb and packet-header bit writers are written only by the one function that applies stuffing. Correctness of the stuffing arithmetic, field order and values inside headers are not decided.",
+ "trusted: go/ssa; marker constants resolved by value; sequence of writes taken in dominance order (conditional write sequences are out of scope)",
+ "DESIGN.md §4 C16")
